@@ -57,6 +57,12 @@ func init() {
 		for _, k := range []string{"DD", "DU", "UD", "FD", "DF"} {
 			p.Jobs = append(p.Jobs, Job{Harness: "gonnx.H_C13", Case: map[string]interface{}{"kinds": []string{k}, "sup": []int{2}, "init": []int{0}, "extra": 0, "mutate": 0, "bare": 0, "view": 1}})
 		}
+		// inputs declared with element types other than FLOAT, supplied with tensors of that type
+		for _, el := range []string{"bool", "int64", "float64"} {
+			for _, k := range []string{"D", "DD", "UD"} {
+				p.Jobs = append(p.Jobs, Job{Harness: "gonnx.H_C13", Case: map[string]interface{}{"kinds": []string{k}, "sup": []int{len(k)}, "init": []int{0}, "extra": 0, "mutate": 0, "bare": 0, "elem": el}})
+			}
+		}
 		// ... and one that is lazily transposed
 		for _, k := range []string{"DD", "DU", "FD", "DF", "FF", "DDD", "D"} {
 			p.Jobs = append(p.Jobs, Job{Harness: "gonnx.H_C13", Case: map[string]interface{}{"kinds": []string{k}, "sup": []int{2}, "init": []int{0}, "extra": 0, "mutate": 0, "bare": 0, "view": 2}})
